@@ -24,7 +24,7 @@ type ProcJob struct{ Tier string }
 
 func (j *ProcJob) Name() string { return "C06/procx/real-binary-kill-and-restart" }
 
-const realBin = "/verif/bin/resonate-real"
+var realBin = runner.Home() + "/bin/resonate-real"
 
 func freePort() int {
 	l, err := net.Listen("tcp", "127.0.0.1:0")
@@ -119,7 +119,7 @@ func (j *ProcJob) Run(deadline time.Time) *runner.JobResult {
 		sig  syscall.Signal
 	}{{"SIGTERM", syscall.SIGTERM}, {"SIGKILL", syscall.SIGKILL}} {
 		for killAfter := 1; killAfter <= 4; killAfter++ {
-			dir, err := os.MkdirTemp("/verif/.ov", "procx")
+			dir, err := os.MkdirTemp(runner.Home()+"/.ov", "procx")
 			if err != nil {
 				res.HarnessErr = err.Error()
 				return res
